@@ -12,6 +12,11 @@
   parses as pubkey ‖ keyid ‖ 40-byte signature with nothing left over, and
   `dsaVerify pub (mac2 m1(s) (theirPub ‖ ourPub ‖ pub ‖ keyid)) sig`; conversely any failing check
   rejects (`c01_guard_encsig_rejects`) and leaves peer key, keys and message state untouched.
+  Repaired code (`c01_processAKE_revealSig`, `recvRevealSig_answer_fails_keeps_theirKey`): a
+  Reveal-Signature message that passes every check but whose Signature reply cannot be built (no
+  long-term key, signing fails, no instance tag) is reported as an error with the authentication state
+  unchanged, and the peer key of the conversation is what it was before — not the key of an exchange
+  that did not complete.
   `c01_finish_responder` / `c01_finish_initiator` / `c01_dhkey_step`: after the finishing step the
   conversation reports exactly the verified key, the verified in-range DH value as the peer's
   current key, the signed key id, and `ssid = hash2(0x00 ‖ mpi(s))[0:8]` for s = theirPub^ourSecret.
@@ -37,6 +42,7 @@
 -/
 
 import Proofs.AkeGuard
+import Proofs.Fixes3
 namespace Otr.C01
 open Otr
 
@@ -85,5 +91,18 @@ theorem c01_paths_keys_any : type_of% @Otr.c01_paths_keys_any := @Otr.c01_paths_
 
 /-- repaired code: strict frame outside the finishing combinations, whatever is queued -/
 theorem processAKE_strict_nonfinishing : type_of% @Otr.processAKE_strict_nonfinishing := @Otr.processAKE_strict_nonfinishing
+
+/-- repaired code (exact): the message is accepted, the reply cannot be built ⇒ error, state unchanged, the peer
+    key is the one before the message -/
+theorem recvRevealSig_answer_fails_keeps_theirKey :
+    type_of% @Otr.recvRevealSig_answer_fails_keeps_theirKey := @Otr.recvRevealSig_answer_fails_keeps_theirKey
+
+/-- the same read off any run -/
+theorem recvRevealSig_answer_fails_theirKey :
+    type_of% @Otr.recvRevealSig_answer_fails_theirKey := @Otr.recvRevealSig_answer_fails_theirKey
+
+/-- the hypotheses hold together: a concrete accepted Reveal-Signature message (crypto record `Crypto.lax`) in a
+    conversation without a long-term key -/
+theorem laxRevealSig_accepted : type_of% @Otr.laxRevealSig_accepted := @Otr.laxRevealSig_accepted
 
 end Otr.C01
